@@ -67,6 +67,8 @@ type c19Corpus struct {
 	SealLast bool    `json:"seal_last"`
 	// RawGroups: the group-by tokens are byte strings that are not valid UTF-8 ("g\xfe", "g\xff")
 	RawGroups bool `json:"raw_groups,omitempty"`
+	// HugeValues: the numeric field of every document is 1e308, so a sum over two documents is +Inf
+	HugeValues bool `json:"huge_values,omitempty"`
 }
 
 type c19Req struct {
@@ -172,6 +174,13 @@ func c19Handle(raw json.RawMessage) any {
 			var docs []refdb.Doc
 			for _, i := range fr {
 				d := c19Doc(i)
+				if job.Corpus.HugeValues {
+					for k := range d.Toks {
+						if d.Toks[k].F == "v" {
+							d.Toks[k].V = "1e308"
+						}
+					}
+				}
 				if job.Corpus.RawGroups {
 					for k := range d.Toks {
 						if d.Toks[k].F == "g" {
@@ -528,7 +537,10 @@ func TestVerifC19(t *testing.T) {
 	rawJobs := []struct {
 		c   c19Corpus
 		req c19Req
-	}{{c19Corpus{Fracs: [][]int{{0, 1}, {2, 3}}, RawGroups: true}, c19Req{Query: "*", Agg: "count:g"}}}
+	}{{c19Corpus{Fracs: [][]int{{0, 1}, {2, 3}}, RawGroups: true}, c19Req{Query: "*", Agg: "count:g"}},
+		// sums that leave the float64 range: +Inf in the synchronous answer
+		{c19Corpus{Fracs: [][]int{{0, 2}, {1, 3}}, HugeValues: true}, c19Req{Query: "*", Agg: "sum:v:g"}},
+		{c19Corpus{Fracs: [][]int{{0, 1}, {2, 3}}, HugeValues: true}, c19Req{Query: "*", Agg: "sum:v:g"}}}
 	queries := []string{"*", `k:"a*"`, `(not k:"b")`, `m:"x y"`}
 	var reqs []c19Req
 	for _, q := range queries {
